@@ -44,8 +44,42 @@ def sweep_history(rng, pairs, max_ids, descs_per_sub=2, via="idman") -> dict:
     ops = []
     for (sp, su) in pairs:
         for k in range(descs_per_sub):
-            ops.append({"op": "get", "sp": list(sp), "su": list(su), "d": f"{'' if via == 'idman' else ':v:'}{rng.choice(DESCS[:12])}{k}", "dt": rng.choice([0, 1, 1000])})
+            ops.append({"op": "get", "sp": list(sp), "su": list(su), "d": f"{'' if via == 'idman' else ':v:'}{rng.choice(DESCS[:12])}{k}", "dt": rng.choice([0, 1, 1000]),
+                        **({"strform": True} if via == "terminal" and rng.random() < 0.5 else {})})
     return {"max_ids": max_ids, "seed": rng.randrange(1 << 30), "start": dbutil.T0, "profile": "sweep", "via": via,
+            "ops": [dict(o, n=i) for i, o in enumerate(ops)]}
+
+
+def outside_history(rng, subs_by_space, max_ids) -> dict:
+    """a description already bound to an id just OUTSIDE the requested subspace (same space, subspace byte
+    begin-1 / end / 0) must not be handed out for the request: force-set such ids, then request."""
+    ops = []
+    k = 0
+    for sp, subs in subs_by_space:
+        cb, u3 = sp
+        off = 24 if u3 else (16 if cb == 24 else 0)
+        for (b, e) in subs:
+            for outside in {b - 1, e, 0 if (cb == 24 and not u3) else 1} - set(range(b, e)):
+                if not (0 <= outside <= 255):
+                    continue
+                i = outside << off
+                if cb == 8 and u3:
+                    i |= rng.randrange(1, 256)
+                elif cb == 24:
+                    i |= (rng.randrange(1, 256) << 8) | rng.randrange(256)
+                    if u3:
+                        i |= rng.randrange(256) << 16 if False else 0
+                if u3 and outside == 0:
+                    continue          # high byte 0 would be another space
+                if not u3 and cb == 8 and outside == 0:
+                    continue
+                if i == 0:
+                    continue
+                k += 1
+                d = f"o{k}"
+                ops.append({"op": "set", "id": i, "d": d, "dt": 1})
+                ops.append({"op": "get", "sp": list(sp), "su": [b, e], "d": d, "dt": 1})
+    return {"max_ids": max_ids, "seed": rng.randrange(1 << 30), "start": dbutil.T0, "profile": "outside", "via": "idman",
             "ops": [dict(o, n=i) for i, o in enumerate(ops)]}
 
 
@@ -159,6 +193,10 @@ def cases(ctx: Ctx):
     for max_ids in (1024, 1, 10**6):
         for sp in SPACES:
             yield sweep_history(rng, [(sp, su) for su in bsubs], max_ids, 1 if max_ids != 1024 else 2)
+    # 1b. same description bound just outside the requested subspace
+    edge = [(1, 256), (0, 255), (1, 255), (2, 256), (0, 2), (1, 2), (254, 256), (127, 129), (5, 9)]
+    yield outside_history(rng, [(sp, edge) for sp in SPACES], 1024)
+    yield outside_history(rng, [(sp, rng.sample(subs, 12)) for sp in SPACES], rng.choice([2, 1024]))
     # 2. fill states: every enumerable boundary subspace of the 8-bit spaces filled past full (recycling)
     for sp in [(0, True), (8, False)]:
         for su in [(0, 2), (1, 2), (255, 256), (0, 3), (1, 4), (254, 256), (127, 129), (2, 5), (0, 4)]:
